@@ -33,6 +33,9 @@ class GPStub:
         g.s2 = None if self.s2 is None else self.s2.copy()
         g.X, g.y = getattr(self, "X", None), getattr(self, "y", None)
         g.nfail = self.nfail
+        g.post_fail = self.post_fail
+        g.bounds, g.hyp = dict(self.bounds), self.hyp.copy()
+        g.lower_bounds, g.upper_bounds = self.lower_bounds.copy(), self.upper_bounds.copy()
         return g
 
     def _shapes(self, X, y, s2):
@@ -60,6 +63,9 @@ class GPStub:
 
     def set_bounds(self, b):
         self.bounds = b
+        lo, hi = b["noise_log_scale"]
+        self.lower_bounds = np.concatenate([np.atleast_1d(_raw(lo)).ravel()[:1], self.lower_bounds[1:]])
+        self.upper_bounds = np.concatenate([np.atleast_1d(_raw(hi)).ravel()[:1], self.upper_bounds[1:]])
 
     def hyperparameters_to_dict(self, h):
         h = np.atleast_2d(h)
@@ -68,16 +74,40 @@ class GPStub:
     def hyperparameters_from_dict(self, d):
         return np.array([np.concatenate([np.atleast_1d(e["noise_log_scale"]), e["rest"]]) for e in d])
 
+    def _posterior(self, what, may_fail=False):
+        """gpyreg recomputes the posterior from self.X, self.y, self.s2: with user-provided noise a noise vector whose
+        length differs from the rows of X fails to broadcast (ValueError, probed on the installed gpyreg); like a fit,
+        the factorisation itself may fail (LinAlgError) on the symbolic schedule"""
+        X, y, s2 = getattr(self, "X", None), getattr(self, "y", None), self.s2
+        self.log.append((what, None if X is None else int(X.shape[0]), None if y is None else int(np.asarray(_raw(y)).shape[0]),
+                         None if not isinstance(s2, np.ndarray) else int(s2.shape[0])))
+        if X is not None and y is not None and np.asarray(_raw(y)).shape[0] != X.shape[0]:
+            raise ValueError(f"operands could not be broadcast together with shapes ({X.shape[0]},) ({np.asarray(_raw(y)).shape[0]},)")
+        if X is not None and isinstance(s2, np.ndarray) and s2.size and s2.shape[0] != X.shape[0]:
+            raise ValueError(f"operands could not be broadcast together with shapes ({X.shape[0]},) ({s2.shape[0]},) ({X.shape[0]},)")
+        if (self.post_fail or may_fail) and self.nfail[0] < self.max_fail and self.eng.choose("posterior_fails"):
+            raise np.linalg.LinAlgError("Matrix is not positive definite")
+
+    post_fail = False
+    lower_bounds = np.full(3, -5.0)
+    upper_bounds = np.full(3, 5.0)
+
+    def _GP__gp_obj_fun(self, hyp, grad, swap):
+        self._posterior("obj")
+        return 0.0
+
     def set_hyperparameters(self, h, compute_posterior=True):
         self.hyp = np.atleast_2d(h)
         self.log.append(("set_hyp", compute_posterior))
+        if compute_posterior:
+            self._posterior("posterior", may_fail=True)
 
     def get_hyperparameters(self, as_array=True):
         return self.hyp
 
 
 class HRobust(Harness):
-    """params: N (training rows), D, noise (bool), max_fail (<= 10), symY (bool)"""
+    """params: N (training rows), D, noise (bool), max_fail (<= 10), symY (bool), slice (bool: option use_slice_sampler)"""
     name = "H-RF/robust"
     functions = (gptmod._robust_gp_fit_,)
     stubs_doc = ("gp.fit: LinAlgError on a symbolic schedule (one fresh Bool per attempt, up to max_fail failures); enforces gpyreg's row-count contract for X, y, s2",
@@ -88,11 +118,41 @@ class HRobust(Harness):
         p = self.p
         N, D, noise, max_fail = p["N"], p["D"], p.get("noise", False), p.get("max_fail", 3)
         opts = cached_options(D, {})
+        opts["use_slice_sampler"] = bool(p.get("slice", False))
         log = []
-        st = {"pybads.bads.gaussian_process_train": dict(_get_random_samples_from_priors_=lambda gp_: np.zeros((1, 3)))}
+
+        class SliceSamplerStub:
+            """gpyreg.slice_sample.SliceSampler stand-in: a slice sampler evaluates the log density at its start point"""
+            def __init__(s, f_, x0, widths=None, LB=None, UB=None, *a, **k):
+                s.f, s.x0 = f_, x0
+                # the constructor's documented argument checks (gpyreg/slice_sample.py)
+                for i in range(len(x0)):
+                    if not (UB[i] >= LB[i]):
+                        raise ValueError("All upper bounds UB need to be equal or greater than lower bounds LB.")
+                    if widths[i] <= 0:
+                        raise ValueError("The widths vector needs to be all positive real numbers.")
+                    if x0[i] < LB[i] or x0[i] > UB[i]:
+                        raise ValueError("The initial starting point X0 is outside the bounds.")
+
+            def sample(s, n, burn=None):
+                s.f(s.x0)
+                return {"samples": [np.asarray(s.x0)]}
+        st = {"pybads.bads.gaussian_process_train": dict(_get_random_samples_from_priors_=lambda gp_: np.zeros((1, 3)), SliceSampler=SliceSamplerStub)}
         rb = Rebinder(eng.concrete, stubs=stubs(**st))
         f = rb.func(gptmod._robust_gp_fit_)
         gp = GPStub(eng, D, max_fail, log)
+        gp.post_fail = bool(p.get("slice", False))   # the sampler's density evaluation may fail like a fit (it is caught there)
+        hyp0 = np.zeros((1, 3))
+        if p.get("slice", False) and p.get("symhyp", False):
+            # the noise hyper-parameter and its bounds are arbitrary: lb <= h <= ub, |.| <= 20, ub - lb >= 1
+            h, lo, hi = eng.real("h_noise"), eng.real("lb_noise"), eng.real("ub_noise")
+            if not eng.concrete:
+                eng.assume(z3.And(lo.e >= -20, hi.e <= 20, lo.e <= h.e, h.e <= hi.e, hi.e - lo.e >= 1))
+            mk = (lambda v: np.array([v], dtype=float)) if eng.concrete else (lambda v: to_obj(np.array([v], dtype=object)))
+            gp.bounds = {"noise_log_scale": (mk(lo), mk(hi))}
+            gp.set_bounds(gp.bounds)
+            hyp0 = np.array([[h, 0.0, 0.0]], dtype=float) if eng.concrete else to_obj(np.array([[h, 0.0, 0.0]], dtype=object))
+            gp.hyp = hyp0.copy()
         rng = np.random.RandomState(5)
         X = rng.uniform(-1, 1, size=(N, D)).round(3)
         Xc = X
@@ -110,7 +170,7 @@ class HRobust(Harness):
         out = Out()
         err = None
         try:
-            gp2, new_hyp, res, success = f(gp, X, Y, s2, np.zeros((1, 3)), {}, {}, opts)
+            gp2, new_hyp, res, success = f(gp, X, Y, s2, hyp0, {}, {}, opts)
         except (ValueError, UnboundLocalError) as e:
             err = e
         fits = [l for l in log if l[0] == "fit"]
